@@ -34,6 +34,7 @@ import PrecondVerif.Model.DShampoo
 import PrecondVerif.Model.BlockDiag
 import PrecondVerif.Model.Devices
 import PrecondVerif.Model.FD
+import PrecondVerif.Model.Tearfree
 
 namespace PrecondVerif.Compose
 open PrecondVerif.InvRoot PrecondVerif.Gate PrecondVerif.Schedule PrecondVerif.DShampoo
@@ -111,6 +112,21 @@ def newtonSlotRoot (N : NewtonCfg α) (rep : α → XF) {n : Nat} (s : Nat) (A :
     (_fault : Unit) : Mat α n n × XF :=
   ((newtonOut N s A).x, rep (newtonOut N s A).err)
 
+/-- the `matrix_size == 1` branch of `matrix_inverse_pth_root` (C01's `oneByOne`) as the root routine of a slot whose
+statistic is the scalar `a`: ridge `ridge_epsilon · max(max_ev, _EPSILON)`, `max_ev` of the `1 × 1` matrix `(a)` -/
+def scalarSlotRoot (N : NewtonCfg α) (rep : α → XF) (invroot : α → α) (a : α) (_prev : α) (_fault : Unit) : α × XF :=
+  let r := oneByOne N.p invroot N.cast32 a (ridgeOf N.eps (N.maxEvOf 1 1 fun _ _ => a) N.epsFloor)
+  (r.1, rep r.2)
+
+/-- `matrix_inverse_pth_root_eigh` (C01's `eighRoot`) as the root routine of a slot: the eigen-solver `kernel` is an
+external routine handed the regularised statistic, `ridgeFn` the ridge (`ridge_epsilon · max(max_ev, error_tolerance)`) -/
+def eighSlotRoot [BEq α] (kernel : (n : Nat) → Mat α n n → Mat α n n × Vec α n) (ridgeFn : (n : Nat) → Mat α n n → α)
+    (sqrt invroot : α → α) (rep : α → XF) {n : Nat} (s : Nat) (A : Mat α n n) (_prev : Mat α n n) (_fault : Unit) :
+    Mat α n n × XF :=
+  let ue := kernel n (regularized s A (ridgeFn n A))
+  let r := eighRoot s sqrt invroot (ridgeFn n A) A ue.1 ue.2
+  (r.1, rep r.2)
+
 end Newton
 
 /-! ### adapters `Mat α n n` ↔ `Mx α` -/
@@ -154,6 +170,23 @@ def slotKernels (thr : XF) (N : NewtonCfg α) (rep : α → XF) (G : Geom) (w1 w
     DSKernels (Mx α) (Mx α) XF (List α) Unit Unit Unit Nat :=
   gateKernels thr (slotStatsUpd G w1 w2 i) (newtonSlotRootMx N rep (dims i)) id
     (fun _ _ _ => ((), 0, 0)) (fun _ _ _ _ => ((), 0, 0)) (fun a _ _ => a)
+
+/-- the same with an arbitrary per-slot root routine (eigh, the `1 × 1` branch, a dispatch on the statistic size, …) -/
+def slotKernelsWith (thr : XF) (rootOf : Nat → Mx α → Mx α → Unit → Mx α × XF) (G : Geom) (w1 w2 : α) (i : Nat) :
+    DSKernels (Mx α) (Mx α) XF (List α) Unit Unit Unit Nat :=
+  gateKernels thr (slotStatsUpd G w1 w2 i) (rootOf i) id
+    (fun _ _ _ => ((), 0, 0)) (fun _ _ _ _ => ((), 0, 0)) (fun a _ _ => a)
+
+/-- the `1 × 1` branch on a slot held as `Mx`: the statistic is the entry `L 0 0`, the root the `1 × 1` matrix `(x)` -/
+def scalarSlotRootMx (N : NewtonCfg α) (rep : α → XF) (invroot : α → α) (L : Mx α) (_prev : Mx α) (_fault : Unit) :
+    Mx α × XF :=
+  ((fun i j => if i = 0 ∧ j = 0 then (scalarSlotRoot N rep invroot (L 0 0) 0 ()).1 else 0),
+    (scalarSlotRoot N rep invroot (L 0 0) 0 ()).2)
+
+/-- what `matrix_inverse_pth_root` does: the scalar branch for `matrix_size == 1`, the coupled Newton iteration otherwise -/
+def dispatchSlotRootMx (N : NewtonCfg α) (rep : α → XF) (invroot : α → α) (dims : Nat → Nat) (i : Nat) :
+    Mx α → Mx α → Unit → Mx α × XF :=
+  if dims i = 1 then scalarSlotRootMx N rep invroot else newtonSlotRootMx N rep (dims i)
 
 /-- all slots of a parameter advance with the same `update` call -/
 def slotsStep (mk : Nat → DSKernels (Mx α) (Mx α) XF (List α) Unit Unit Unit Nat) (cfg : DSCfg)
@@ -223,6 +256,12 @@ def ofA2 [Zero α] (n : Nat) (a : BlockDiag.A2 α) : Mat α n n := fun i j => Bl
 
 variable [Add α] [Sub α] [Mul α] [Div α] [Neg α] [Zero α] [One α] [OfNat α 2] [OfNat α 10] [LT α] [DecidableLT α]
 
+/-- `max_ev` as `matrix_inverse_pth_root` computes it for a relative ridge: C01's `powerIteration` on the masked
+statistic, started from the masked prefix of ONE fixed sequence `u`
+(`RandomState(1729).uniform(-1, 1, n) * (arange(n) < padding_start)`: the draws for size `n` are the first `n` draws) -/
+def piMaxEv (sqrt : α → α) (tol : α) (numIters : Nat) (u : Nat → α) : (n : Nat) → Nat → Mat α n n → α :=
+  fun _ s A => powerIteration sqrt tol numIters (Mat.mask s A) (fun i => if i.val < s then u i.val else 0)
+
 /-- C01's Newton routine in C08's batch position: pad the statistic to `N` (`pad_square_matrix`), root with
 `padding_start = s`, cut `[:s, :s]`; result = (root, reported error, total retries) -/
 def paddedRootC01 (Nw : NewtonCfg α) (N s : Nat) (a : BlockDiag.A2 α) : Mx α × α × Nat :=
@@ -230,6 +269,57 @@ def paddedRootC01 (Nw : NewtonCfg α) (N s : Nat) (a : BlockDiag.A2 α) : Mx α 
   (fun i j => if h : (i < s ∧ j < s) ∧ (i < N ∧ j < N) then o.x ⟨i, h.2.1⟩ ⟨j, h.2.2⟩ else 0, o.err, o.retries)
 
 end Tree
+
+/-! ### a parameter TREE: per-leaf steps that share only the root batch -/
+
+section TreeStep
+variable {α : Type} [Add α] [Sub α] [Mul α] [Div α] [Neg α] [Zero α] [One α] [OfNat α 0] [OfNat α 1] [OfNat α 2]
+  [OfNat α 10] [LT α] [DecidableLT α] [Inhabited α]
+
+/-- a slot kernel whose root result has been computed elsewhere (in the shared batch) -/
+def withRes (K : DSKernels (Mx α) (Mx α) XF (List α) Unit Unit Unit Nat) (r : Mx α × XF) :
+    DSKernels (Mx α) (Mx α) XF (List α) Unit Unit Unit Nat :=
+  { K with rootAll := fun _ _ _ => r }
+
+/-- `_compute_stats` of one leaf (a `tree.map`): the statistics of its slots after this step's statistics update -/
+def leafNewStats (mk : Nat → DSKernels (Mx α) (Mx α) XF (List α) Unit Unit Unit Nat) (cfg : DSCfg) (s : ParamState α)
+    (g : List α) : List (Mx α) :=
+  s.slots.mapIdx fun i sl => dsStats' (mk i) cfg sl g
+
+/-- the statistics of ALL leaves as the batch `_pmap_compute_preconditioners` flattens: slot `i` of leaf `ℓ` has size
+`dims ℓ i` and is tabulated (`BlockDiag.tabM`) -/
+def treeBatch (mk : Nat → Nat → DSKernels (Mx α) (Mx α) XF (List α) Unit Unit Unit Nat) (dims : Nat → Nat → Nat)
+    (cfg : DSCfg) (ps : List (ParamState α)) (inp : Nat → List α × List α) : List (List (BlockDiag.Stat α)) :=
+  ps.mapIdx fun l s => (leafNewStats (mk l) cfg s (inp l).1).mapIdx fun i L =>
+    (⟨dims l i, BlockDiag.tabM (dims l i) L⟩ : BlockDiag.Stat α)
+
+/-- **one Distributed Shampoo step of the composed model on a parameter tree, code shape**: statistics per leaf; ONE
+root computation for the whole tree (`distributedTreeRoots`: flatten, pad to the tree-wide `max_size`, `D` devices,
+regroup); then every slot of every leaf runs its schedule / gate step with the result the batch returned for it, and
+every leaf its update half.  `inp l` = (gradient, parameter) of leaf `l`; `upd l`, `mk l`, `dims l` its update half,
+slot kernels (statistics update, gate) and statistic sizes. -/
+def treeStepBatched (rootB : Nat → Nat → BlockDiag.A2 α → Mx α × XF) (filler : BlockDiag.Stat α) (D : Nat)
+    (upd : Nat → Nat → List α → List α → PState α → List (Mx α) → List (Mx α) → Option (TOut α))
+    (mk : Nat → Nat → DSKernels (Mx α) (Mx α) XF (List α) Unit Unit Unit Nat) (dims : Nat → Nat → Nat)
+    (cfg : DSCfg) (ps : List (ParamState α)) (inp : Nat → List α × List α) :
+    List (ParamState α × Option (TOut α)) :=
+  let res := distributedTreeRoots rootB filler D (treeBatch mk dims cfg ps inp)
+  ps.mapIdx fun l s =>
+    paramStepWith (upd l) (fun i => withRes (mk l i) ((res.getD l []).getD i (Mx.zero, XF.nan))) cfg s (inp l)
+
+/-- the same tree with every leaf stepped on its own (`paramStepWith`: each slot calls its own root routine) -/
+def treeStepIndep
+    (upd : Nat → Nat → List α → List α → PState α → List (Mx α) → List (Mx α) → Option (TOut α))
+    (mk : Nat → Nat → DSKernels (Mx α) (Mx α) XF (List α) Unit Unit Unit Nat)
+    (cfg : DSCfg) (ps : List (ParamState α)) (inp : Nat → List α × List α) :
+    List (ParamState α × Option (TOut α)) :=
+  ps.mapIdx fun l s => paramStepWith (upd l) (mk l) cfg s (inp l)
+
+/-- gate ∘ Newton in the batch position, as the gate sees it: (root, reported error) of `paddedRootC01` -/
+def newtonBatchRoot (Nw : NewtonCfg α) (rep : α → XF) (N s : Nat) (a : BlockDiag.A2 α) : Mx α × XF :=
+  ((paddedRootC01 Nw N s a).1, rep (paddedRootC01 Nw N s a).2.1)
+
+end TreeStep
 
 /-! ### Tearfree Sketchy: C04's cadence around C09's sketch update -/
 
@@ -247,5 +337,21 @@ def sketchyKernels {α υ : Type} [Zero α] [One α] [Add α] [Sub α] [Mul α] 
   ⟨fun st G => (FD.sketchyUpdateAxis svd sqrt pw epsilon relative β st G).st, precondition⟩
 
 end Sketchy
+
+/-! ### Tearfree Shampoo: one block of `shampoo._update` -/
+
+section TFBlock
+open PrecondVerif.Tearfree
+variable {α : Type} [Zero α] [One α] [Add α] [Sub α] [Mul α] [LT α] [DecidableLT α] [BEq α] [Max α]
+
+/-- what `shampoo._update` does to ONE block at counter `c`: statistics cond, then preconditioner cond on the result,
+then apply — a function of the block's own gradient slice `x` and own stored state `b` only -/
+def tfBlockStep (eigh : EighFn α) (hp : α → α) (cut decay : α) (sizes : List Nat) (sf pf c : Nat) (x : Array α)
+    (b : BlockSt α) : BlockSt α × Array α :=
+  let b₁ := if c % sf = 0 then blockStatsUpdate decay sizes x b else b
+  let b₂ := if c % pf = 0 then blockPrecondUpdate eigh hp cut sizes b₁ else b₁
+  (b₂, blockApply sizes x b₂)
+
+end TFBlock
 
 end PrecondVerif.Compose
